@@ -20,6 +20,10 @@
            the read-only queries the property names (Lookup / Search / observers N, M, IsEdge,
            Neighbours, Degrees on the four representations / comb / encoders / ...) write
            through nothing at all, except Search through the searcher it was handed.
+     (v)   a field that may hold a slice / map / pointer owned by a caller of the exported API
+           (stored from a parameter without copying, or copied from such a field) is written
+           through by no function: two iterators, views or searchers built from the same input
+           slice do not interfere through it (and the input itself is left untouched);
    Together with the functional models of the other properties (a result is a function of the
    value operated on) this gives sequential = concurrent *under the Go memory model's
    guarantee for programs without conflicting accesses*, which is assumed, not proved.  The
@@ -27,7 +31,7 @@
    tracking through local variables; values stored into a receiver are from then on owned by
    it).  The -race scenarios of the harness are exploration.  Hence the names ..._partial. *)
 From Coq Require Import List String.
-From Mamba Require Import Gen.Effects Effects.Skel Effects.Closure Effects.Flow Effects.Chan Effects.Instance.
+From Mamba Require Import Gen.Effects Effects.Skel Effects.Closure Effects.Flow Effects.Fields Effects.Chan Effects.Instance.
 Import ListNotations.
 Open Scope string_scope.
 
@@ -83,6 +87,11 @@ Proof.
   apply mem_In in A. rewrite A in B. discriminate.
 Qed.
 Print Assumptions C19_queries_write_nothing_shared_partial.
+
+Theorem C19_borrowed_inputs_not_written_partial : forall tf,
+  Borrowed funcs documented_param_writes tf -> FieldWritten funcs tf -> False.
+Proof. intros tf Hb Hw. exact (borrowed_fields_not_written tf Hb Hw). Qed.
+Print Assumptions C19_borrowed_inputs_not_written_partial.
 
 (* Non-vacuity.  The table is non-empty, the closures are non-trivial, and the analysis does
    see writes where there are some: the builder's commonPrefix writes through a Dawg and is NOT
@@ -143,4 +152,25 @@ Proof.
   - apply (ex_loop_next _ [EvSend] [] EContinue ENormal); [| right; reflexivity | apply ex_loop_done].
     apply ex_if_l. apply (ex_seq _ _ [EvSend] [] EContinue); constructor.
   - constructor.
+Qed.
+
+(* there are borrowed fields (MultisetCombinations keeps the caller's maxima slice, the induced
+   view keeps the caller's vertex list) and there are fields that are written through (the
+   iterator's own state); the theorem says the two sets are disjoint *)
+Example C19_nonvacuous_borrowed :
+  Borrowed funcs documented_param_writes "itertools.MultisetCombinationIterator.m" /\
+  Borrowed funcs documented_param_writes "graph.inducedSubgraph.verts" /\
+  FieldWritten funcs "itertools.MultisetCombinationIterator.state" /\
+  List.length borrowed_fields = 6.
+Proof.
+  split; [|split; [|split]].
+  - apply bo_store with (f := "itertools.MultisetCombinations") (r := "p0"); [|vm_compute; reflexivity].
+    eapply ms_direct; [vm_compute; reflexivity | vm_compute; tauto].
+  - apply bo_store with (f := "graph.InducedSubgraph") (r := "p1"); [|vm_compute; reflexivity].
+    eapply ms_direct; [vm_compute; reflexivity | vm_compute; tauto].
+  - destruct (lookup funcs "itertools.MultisetCombinationIterator.Next") as [info|] eqn:E; [|vm_compute in E; discriminate].
+    apply fw_direct with (info := info).
+    + apply (lookup_some funcs) in E. tauto.
+    + vm_compute in E. injection E as <-. vm_compute. tauto.
+  - vm_compute. reflexivity.
 Qed.
